@@ -55,6 +55,9 @@ def owner_of(step) -> str:
     if step.real[0] == "err" or k in ("dur", "est", "pref"):
         return "C09"
     if "/refs" in why or why.endswith("/ph") or "/ph:" in why:
+        # phase bookkeeping belongs to C07, except the drift corrections of EOM operations
+        if step.op.get("corr") and k in ("addeom", "eomon", "eommod", "eomoff"):
+            return "C15"
         return "C07"
     if "/eom" in why or "/inEom" in why:
         return "C15"
@@ -130,13 +133,13 @@ def run_history(drv, spec, ops_or_gen, exact, monitors, nops=None, stop_on_fail=
         for m in monitors:
             for f in m.post(ls, st):
                 res.fails.append((i, f))
-        if st.diverged:
+        if st.diverged and res.divergence is None:
             amb = (not exact) and is_float_ambiguous(st)
             res.divergence = (i, owner_of(st), st.why, amb)
-            break
+            ls.model_on = False      # keep going on the implementation only (monitors still run)
         if res.fails and stop_on_fail:
             break
-    if not res.divergence and not (res.fails and stop_on_fail):
+    if not (res.fails and stop_on_fail):
         for m in monitors:
             for f in m.end(ls):
                 res.fails.append((res.nsteps - 1, f))
